@@ -1,6 +1,6 @@
 (* Dispatch.v — the single entry point the extracted driver calls:
    component number and flat input -> flat output. *)
-From RaftModel Require Import Base LogCache Config Commitment Compaction Node NodeCodec Candidate Lease Leader LeaderCodec Pipeline LoopTable Futures Notify FileSnap.
+From RaftModel Require Import Base LogCache Config Commitment Compaction Node NodeCodec Candidate Lease Leader LeaderCodec Pipeline LoopTable Futures Notify FileSnap Cluster.
 Open Scope N_scope.
 
 (* the table generated from the Go source on this run *)
@@ -17,6 +17,7 @@ Definition run_case (comp : N) (inp : list N) : list N :=
   | 6 => run_nodeseq inp
   | 14 => run_candidate inp
   | 8 => run_leaderseq inp
+  | 1 => run_cluster inp
   | 15 => run_fsprogram inp
   | 1501 => run_image inp
   | 1502 => run_crash inp
